@@ -338,6 +338,11 @@ struct ExitGuard(Arc<Sched>, usize);
 impl Drop for ExitGuard {
     fn drop(&mut self) {
         let s = &self.0;
+        if self.1 != 0 && !s.abort.load(Ordering::SeqCst) {
+            // a scheduling point between the thread's last operation and its end: another thread may observe the effects
+            // of that operation (a message from `PanicMarker::drop`, say) while this thread has not finished yet
+            s.switch(self.1, TState::Runnable, "exiting");
+        }
         if !s.abort.load(Ordering::SeqCst) {
             let mut st = lock_state(s);
             if !s.abort.load(Ordering::SeqCst) {
